@@ -768,13 +768,13 @@ impl Thread {
             interrupt: AtomicBool::new(false),
             thread_index: usize::max_value(),
         };
+        // The limits of a thread also apply to the threads that are created from it (the memory
+        // limit is inherited by `new_child_gc`)
+        let max_stack_size = self.owned_context().stack.max_stack_size();
         // Enter the top level scope
         {
             let mut context = vm.owned_context();
             StackFrame::<State>::new_frame(&mut context.stack, 0, State::Unknown).unwrap();
-            // The limits of a thread also apply to the threads that are created from it (the memory
-            // limit is inherited by `new_child_gc`)
-            let max_stack_size = self.owned_context().stack.max_stack_size();
             context.stack.set_max_stack_size(max_stack_size);
         }
         let ptr = {
